@@ -32,6 +32,23 @@ Proof. rewrite !pmem_in. cbn. intuition. Qed.
 Lemma Pinv_sub P Q e : (forall x, pmem x Q = true -> pmem x P = true) -> Pinv P e -> Pinv Q e.
 Proof. intros H HP x Hx. apply HP. auto. Qed.
 
+Lemma never_kill x a : never a -> never (map (kill_guard x) a).
+Proof.
+  intros H p Hp. apply in_map_iff in Hp. destruct Hp as [q [<- Hq]]. specialize (H q Hq).
+  destruct q; cbn in *; try discriminate; auto.
+Qed.
+Lemma never_check x a : never a -> never (map (check_guard x) a).
+Proof.
+  intros H p Hp. apply in_map_iff in Hp. destruct Hp as [q [<- Hq]]. specialize (H q Hq).
+  destruct q; cbn in *; try discriminate; auto.
+Qed.
+Lemma never_norm a : never a -> never (norm a).
+Proof. intros H p Hp. apply H. now apply norm_in. Qed.
+Lemma Pinv_kill P e x : Pinv P e -> Pinv P (env_map (kill_guard x) e).
+Proof. intros H y Hy. rewrite aget_env_map by (apply kill_dflt). apply never_kill. auto. Qed.
+Lemma Pinv_check P e x : Pinv P e -> Pinv P (env_map (check_guard x) e).
+Proof. intros H y Hy. rewrite aget_env_map by (apply check_dflt). apply never_check. auto. Qed.
+
 Lemma Pinv_join P Q e1 e2 : Pinv P e1 -> Pinv Q e2 -> Pinv (pinter P Q) (join e1 e2).
 Proof.
   intros H1 H2 x Hx p Hp. apply pmem_pinter in Hx. destruct Hx as [Hx1 Hx2].
@@ -49,6 +66,11 @@ Proof.
   intros H y Hy. apply pmem_premove in Hy. destruct Hy as [Hne Hy]. rewrite aget_aput.
   destruct (var_eqb x y) eqn:E; auto. apply var_eqb_eq in E. congruence.
 Qed.
+
+Lemma Pinv_putk_never P e x a : Pinv P e -> never a -> Pinv (x :: P) (aputk e x a).
+Proof. intros H Ha. unfold aputk. apply Pinv_put_never; [now apply Pinv_kill | now apply never_kill]. Qed.
+Lemma Pinv_putk_remove P e x a : Pinv P e -> Pinv (premove x P) (aputk e x a).
+Proof. intros H. unfold aputk. apply Pinv_put_remove. now apply Pinv_kill. Qed.
 
 Lemma Pinv_mark_stale ng P e : Pinv P e -> Pinv P (mark_stale ng e).
 Proof.
@@ -104,9 +126,9 @@ Lemma acond_prot c : forall P e et ef tr b Pt Pf,
 Proof.
   induction c as [|y|d y|c IH|c1 IH1 c2 IH2|c1 IH1 c2 IH2]; intros P e et ef tr b Pt Pf HP Ha Hc; cbn in Ha, Hc.
   - inversion Ha; inversion Hc; subst. repeat split; auto. intros t [].
-  - inversion Ha; inversion Hc; subst. repeat split; auto; [|intros t []].
+  - inversion Ha; inversion Hc; subst. repeat split; auto; [|now apply Pinv_check|intros t []].
     apply Pinv_put_never; auto. intros p [<-|[]]. reflexivity.
-  - inversion Ha; inversion Hc as [[E1 E2 E3]]; subst. repeat split; auto. apply safe_deref. apply HP. auto.
+  - inversion Ha; inversion Hc as [[E1 E2 E3]]; subst. repeat split; auto. apply safe_deref. apply never_norm. apply HP. auto.
   - destruct (acond c e) as [[[et1 ef1] tr1] b1] eqn:E1. destruct (cond_prot c P) as [[Pt1 Pf1] ok1] eqn:E2.
     inversion Ha; inversion Hc; subst. destruct (IH _ _ _ _ _ _ _ _ HP E1 E2) as [A [B D]]. auto.
   - destruct (acond c1 e) as [[[et1 ef1] tr1] b1] eqn:E1. destruct (acond c2 et1) as [[[et2 ef2] tr2] b2] eqn:E2.
@@ -125,7 +147,7 @@ Qed.
 Lemma prot_frame st : forall P P' ok x,
   stmt_prot st P = (Some P', ok) -> pmem x P = true -> ~ In x (assigned st) -> pmem x P' = true.
 Proof.
-  induction st as [| s1 IH1 s2 IH2 | y a | cs y g args | d y | c s1 IH1 s2 IH2 | c body IH | a | y ik j | cs d y xi ik m args]; intros P P' ok x H Hx Hn; cbn in H, Hn.
+  induction st as [| s1 IH1 s2 IH2 | y a | cs y g args | d y | c s1 IH1 s2 IH2 | c body IH | a | y ik j | cs d y xi ik m args | a er | cs y ye g args]; intros P P' ok x H Hx Hn; cbn in H, Hn.
   - inversion H; subst; auto.
   - destruct (stmt_prot s1 P) as [[P1|] ok1] eqn:E1; [|discriminate].
     destruct (stmt_prot s2 P1) as [o2 ok2] eqn:E2. inversion H; subst.
@@ -163,6 +185,13 @@ Proof.
     assert (x <> y) by (intros ->; apply Hn; left; reflexivity).
     apply pmem_in. unfold premove. apply filter_In. split; [now apply pmem_in|].
     destruct (var_eqb y x) eqn:E; auto. apply var_eqb_eq in E. congruence.
+  - discriminate.
+  - inversion H; subst.
+    assert (R : forall z Q, pmem x Q = true -> x <> z -> pmem x (premove z Q) = true).
+    { intros z Q Hq Hne. apply pmem_in. unfold premove. apply filter_In. split; [now apply pmem_in|].
+      destruct (var_eqb z x) eqn:E; auto. apply var_eqb_eq in E. congruence. }
+    destruct y as [y|], ye as [ye|]; cbn in Hn; auto;
+      repeat (apply R; [|intros ->; apply Hn; cbn; auto]); auto.
 Qed.
 
 Section Analysis.
@@ -192,7 +221,7 @@ Section Analysis.
     Pinv P e -> analyze ng ctr sp f fuel st e = Some r -> stmt_prot st P = (oP, true) ->
     safe (a_trig r) /\ forall e', a_env r = Some e' -> exists P', oP = Some P' /\ Pinv P' e'.
   Proof.
-    induction st as [| s1 IH1 s2 IH2 | y a | cs y g args | d y | c s1 IH1 s2 IH2 | c body IH | a | y ik j | cs d y xi ik m args]; intros e r P oP HP Han Hs; cbn in Han, Hs.
+    induction st as [| s1 IH1 s2 IH2 | y a | cs y g args | d y | c s1 IH1 s2 IH2 | c body IH | a | y ik j | cs d y xi ik m args | a er | cs y ye g args]; intros e r P oP HP Han Hs; cbn in Han, Hs.
     - inversion Han; inversion Hs; subst; cbn. split; [intros t []|]. intros e' He. inversion He; subst. eauto.
     - destruct (analyze ng ctr sp f fuel s1 e) as [r1|] eqn:E1; [|discriminate].
       destruct (stmt_prot s1 P) as [[P1|] ok1] eqn:F1.
@@ -209,15 +238,15 @@ Section Analysis.
         * inversion Han; subst. split; auto. rewrite Ee1. discriminate.
     - inversion Han; inversion Hs; subst; cbn. split; [apply safe_store|]. intros e' He. inversion He; subst.
       eexists; split; eauto. destruct a as [| |z]; cbn.
-      + apply Pinv_put_remove; auto.
-      + apply Pinv_put_never; auto. intros p [<-|[]]. reflexivity.
-      + destruct (pmem z P) eqn:Ez; [apply Pinv_put_never; auto | apply Pinv_put_remove; auto].
+      + apply Pinv_putk_remove; auto.
+      + apply Pinv_putk_never; auto. intros p [<-|[]]. reflexivity.
+      + destruct (pmem z P) eqn:Ez; [apply Pinv_putk_never; auto | apply Pinv_putk_remove; auto].
     - inversion Han; inversion Hs; subst; cbn. split.
       + apply safe_app. split; [apply safe_args|]. destruct y; [apply safe_store|intros t []].
       + intros e' He. inversion He; subst. eexists; split; eauto. destruct y as [y|].
-        * apply Pinv_put_remove. now apply Pinv_mark_stale.
+        * apply Pinv_putk_remove. now apply Pinv_mark_stale.
         * now apply Pinv_mark_stale.
-    - inversion Han; inversion Hs as [[Ho Hm]]; subst; cbn. split; [apply safe_deref; auto|].
+    - inversion Han; inversion Hs as [[Ho Hm]]; subst; cbn. split; [apply safe_deref; apply never_norm; auto|].
       intros e' He. inversion He; subst. eauto.
     - destruct (acond c e) as [[[et ef] trc] bc] eqn:Ec. destruct (cond_prot c P) as [[Pt Pf] okc] eqn:Fc.
       destruct (analyze ng ctr sp f fuel s1 et) as [r1|] eqn:E1; [|discriminate].
@@ -257,13 +286,27 @@ Section Analysis.
       split; [apply safe_app; auto|]. intros e' He. inversion He; subst. eauto.
     - inversion Han; inversion Hs; subst; cbn. split; [apply safe_cond_cons|]. discriminate.
     - inversion Han; inversion Hs; subst; cbn. split; [apply safe_store|]. intros e' He. inversion He; subst.
-      eexists; split; eauto. apply Pinv_put_never; auto. intros p [<-|[]]. reflexivity.
+      eexists; split; eauto. apply Pinv_putk_never; auto. intros p [<-|[]]. reflexivity.
     - inversion Han; inversion Hs as [[Ho Hm]]; subst; cbn. split.
-      + apply safe_app. split; [apply safe_deref; auto|]. apply safe_app. split; [apply safe_args|].
+      + apply safe_app. split; [apply safe_deref; apply never_norm; auto|]. apply safe_app. split; [apply safe_args|].
         destruct y; [apply safe_store|intros t []].
       + intros e' He. inversion He; subst. eexists; split; eauto. destruct y as [y|].
-        * apply Pinv_put_remove. now apply Pinv_mark_stale.
+        * apply Pinv_putk_remove. now apply Pinv_mark_stale.
         * now apply Pinv_mark_stale.
+    - inversion Han; inversion Hs; subst; cbn. split; [|discriminate].
+      destruct (forallb _ (prods_of_atom e er)); [intros t []|apply safe_cond_cons].
+    - inversion Han; inversion Hs; subst; cbn. split; [apply safe_args|].
+      intros e' He. inversion He; subst. eexists; split; eauto.
+      assert (H0 : Pinv P (mark_stale ng e)) by (now apply Pinv_mark_stale).
+      destruct y as [y|], ye as [ye|].
+      + intros x Hx p Hp. apply pmem_premove in Hx. destruct Hx as [N1 Hx]. apply pmem_premove in Hx. destruct Hx as [N2 Hx].
+        rewrite !aget_aput in Hp.
+        destruct (var_eqb y x) eqn:E1; [apply var_eqb_eq in E1; congruence|].
+        destruct (var_eqb ye x) eqn:E2; [apply var_eqb_eq in E2; congruence|].
+        revert p Hp. apply (Pinv_kill P _ ye (Pinv_kill P _ y H0)); auto.
+      + apply Pinv_put_remove. apply Pinv_kill. exact H0.
+      + apply Pinv_put_remove. apply Pinv_kill. exact H0.
+      + exact H0.
   Qed.
 End Analysis.
 
@@ -338,6 +381,14 @@ Proof.
   intros t [<-|Ht]; [cbn; discriminate|]. apply in_map_iff in Ht. destruct Ht as [i [<- _]]. cbn. discriminate.
 Qed.
 
+Lemma safe_drop rs sp : forall tss f, (forall tg, In tg tss -> safe tg) -> forall tg, In tg (drop_safe rs sp f tss) -> safe tg.
+Proof.
+  induction tss as [|ts tss IH]; intros f H tg Hin; cbn in Hin; [contradiction|].
+  destruct Hin as [<-|Hin].
+  - intros t Ht. apply filter_In in Ht. destruct Ht as [Ht _]. apply (H ts); auto. left; reflexivity.
+  - eapply IH; eauto. intros tg' Hi. apply H. right; auto.
+Qed.
+
 Theorem guarded_no_flow prog afuel ctr pk r :
   guarded prog = true -> analyze_program afuel ctr pk prog = Some r -> ~ has_flow (csys_of [] [] (all_triggers r)).
 Proof.
@@ -346,14 +397,15 @@ Proof.
   destruct (analyze_funcs (length (p_ginit prog)) afuel ctr sp2 0 (p_funcs prog)) as [[tss b]|] eqn:Ef; [|discriminate].
   inversion Han; subst. unfold all_triggers, all_strigs. cbn [r_decl r_funcs r_dups r_affil].
   pose proof (analyze_funcs_safe _ _ _ _ _ _ _ _ Ef Hg) as Sf.
+  set (TS := drop_safe (rsafe_all (length (p_ginit prog)) afuel ctr sp2 0 (p_funcs prog)) sp2 0 tss) in *.
   set (AF := map (fun fd => flat_map (affil prog) (convs_of (f_body fd))) (p_funcs prog)) in *.
-  assert (S : safe (decl_triggers 0 (p_ginit prog) ++ concat tss ++ concat (dups_all ctr sp2 tss 0 (p_funcs prog)) ++ concat AF)).
-  { apply safe_app. split; [apply safe_decl|]. apply safe_app. split; [now apply safe_concat|].
+  assert (S : safe (decl_triggers 0 (p_ginit prog) ++ concat TS ++ concat (dups_all ctr sp2 tss 0 (p_funcs prog)) ++ concat AF)).
+  { apply safe_app. split; [apply safe_decl|]. apply safe_app. split; [apply safe_concat; intros tg Htg; eapply safe_drop; eauto|].
     apply safe_app. split.
     - apply safe_concat. intros dg Hd. eapply safe_dups_all; eauto.
     - apply safe_concat. intros ag Ha. unfold AF in Ha. apply in_map_iff in Ha. destruct Ha as [fd [<- _]].
       intros t Ht. apply in_flat_map in Ht. destruct Ht as [kj [_ Ht]]. exact (safe_affil prog kj t Ht). }
-  set (ALLs := decl_triggers 0 (p_ginit prog) ++ concat tss ++ concat (dups_all ctr sp2 tss 0 (p_funcs prog)) ++ concat AF) in *.
+  set (ALLs := decl_triggers 0 (p_ginit prog) ++ concat TS ++ concat (dups_all ctr sp2 tss 0 (p_funcs prog)) ++ concat AF) in *.
   assert (NoSink : forall a, act (csys_of [] [] (map etrig ALLs)) a -> match a with ASnk _ | ADirect _ => False | _ => True end).
   { intros a [Ha|[k [Ha _]]]; unfold csys_of in Ha; cbn in Ha.
     - apply in_flat_map in Ha. destruct Ha as [t [Ht Ha]].
